@@ -391,3 +391,31 @@ Definition chip_digest (cs : chipstate) :=
   (used_slots 0 (cs_slots cs), cs_free cs, cksum (cs_bufmem cs), cksum (render_slots (cs_slots cs))).
 
 Definition machine_digest (m : machine) := map (fun kv => (fst kv, chip_digest (snd kv))) m.
+
+Fixpoint some_entries (i : Z) (l : list (option (entry * Z * Z)))
+  : list (Z * (list Z * Z * Z * list Z) * Z * Z) :=
+  match l with
+  | [] => []
+  | None :: l' => some_entries (i + 1) l'
+  | Some (e, a, c) :: l' => (i, entry_tuple e, a, c) :: some_entries (i + 1) l'
+  end.
+
+Definition readback_digest (r : result (list (option (entry * Z * Z))) * list titem) :=
+  (match fst r with
+   | Ok l => Ok (len l, some_entries 0 l)
+   | Failed k => Failed k
+   | OtherError => OtherError
+   | OutOfFuel => OutOfFuel
+   end, snd r).
+
+(* the whole of one correspondence case: load, then read every chip back *)
+Definition load_case (m : machine) (tables : list (chip * list entry)) (app_id : Z) (single : bool) :=
+  let r := if single
+           then match tables with
+                | [(c, es)] => load_routing_table_entries m es (fst c) (snd c) app_id
+                | _ => (LOther, m, [])
+                end
+           else load_routing_tables m tables app_id in
+  let m' := snd (fst r) in
+  (fst (fst r), snd r, machine_digest m',
+   map (fun kv => readback_digest (get_routing_table_entries m' (fst (fst kv)) (snd (fst kv)))) m').
